@@ -561,9 +561,24 @@ func (w *world) step(i int, st simcore.Step) bool {
 		if perpetual {
 			epochs = 1
 		}
+		coins := sdk.NewCoins(sdk.NewCoin("uosmo", amountOf(st.Arg(3), st.Arg(4))))
+		// two reward denominations (the module walks them in alphabetical order, one incentive record each); a
+		// "small" one is less than one unit per remaining epoch, which the pool refuses to turn into a record
+		small := osmomath.NewInt(1 + st.Arg(3)%3)
+		switch st.Arg(7) {
+		case 1: // ample first coin, small later coin
+			coins = sdk.NewCoins(sdk.NewCoin(p.d0, amountOf(st.Arg(3), st.Arg(4))), sdk.NewCoin("uosmo", small))
+		case 2: // small first coin, ample later coin
+			coins = sdk.NewCoins(sdk.NewCoin(p.d0, small), sdk.NewCoin("uosmo", amountOf(st.Arg(3), st.Arg(4))))
+		case 3: // two ample coins
+			coins = sdk.NewCoins(sdk.NewCoin(p.d0, amountOf(st.Arg(3), st.Arg(4)).QuoRaw(3).AddRaw(1)), sdk.NewCoin("uosmo", amountOf(st.Arg(3), st.Arg(4))))
+		}
 		res := deliver(&incentivestypes.MsgCreateGauge{IsPerpetual: perpetual, Owner: n.Accts[owner].String(),
 			DistributeTo: lockuptypes.QueryCondition{LockQueryType: lockuptypes.NoLock, Duration: up},
-			Coins:        sdk.NewCoins(sdk.NewCoin("uosmo", amountOf(st.Arg(3), st.Arg(4)))), StartTime: n.Time, NumEpochsPaidOver: epochs, PoolId: p.id})
+			Coins:        coins, StartTime: n.Time, NumEpochsPaidOver: epochs, PoolId: p.id})
+		if res.OK() && len(coins) > 1 {
+			run.Probe(fmt.Sprintf("no-lock-gauge-two-denoms/%d", st.Arg(7)))
+		}
 		if res.OK() {
 			if !p.hasGauge || up < p.minUptime {
 				p.minUptime = up
